@@ -39,6 +39,7 @@ type lcOp struct {
 	V     int           `json:"v,omitempty"`    // (new) account version
 	Kind  string        `json:"kind,omitempty"` // modification kind / spend kind
 	Fail  bool          `json:"fail,omitempty"` // wallet cannot fund
+	Grid  bool          `json:"grid,omitempty"` // new expiry heights are rounded up to a multiple of 100 (accounts share heights)
 	BV    int           `json:"bv,omitempty"`   // batch version
 	K2    int           `json:"k2,omitempty"`   // second account of a concurrent delivery
 	Kind2 string        `json:"kind2,omitempty"`
@@ -494,6 +495,15 @@ func lcClearlyValid(kind string, st account.State, known bool, value, amount int
 	return false
 }
 
+// lcGrid rounds an expiry height up to the next multiple of 100 when the op asks for it, so that
+// several accounts come to share one expiry height.
+func lcGrid(h uint32, grid bool) uint32 {
+	if !grid {
+		return h
+	}
+	return (h + 99) / 100 * 100
+}
+
 func lcSigned(tx *wire.MsgTx) int {
 	if tx == nil {
 		return 0
@@ -690,7 +700,7 @@ func (x *lcRunner) exec(o lcOp) {
 		}
 		e.wallet.failFunding = o.Fail
 		e.wallet.nextKey = e.accts[o.K].key
-		expiry := e.height + 144 + uint32(o.B)
+		expiry := lcGrid(e.height+144+uint32(o.B), o.Grid)
 		var acct *account.Account
 		err := lcGuard(func() error {
 			var err error
@@ -710,6 +720,9 @@ func (x *lcRunner) exec(o lcOp) {
 		var newExp uint32
 		if o.B != 0 {
 			newExp = uint32(int64(e.height) + o.B)
+			if o.B >= 144 {
+				newExp = lcGrid(newExp, o.Grid)
+			}
 		}
 		var err error
 		switch o.Kind {
@@ -1245,7 +1258,7 @@ func (x *lcRunner) stage(o lcOp) (string, string) {
 			OutpointIndex: -1, NewVersion: account.Version(sa.NewVer),
 		}
 		if sa.NewExp != 0 {
-			d.NewExpiry = uint32(int64(e.height) + sa.NewExp)
+			d.NewExpiry = lcGrid(uint32(int64(e.height)+sa.NewExp), o.Grid)
 		}
 		idx := 0
 		if d.EndingState == auctioneerrpc.AccountDiff_OUTPUT_RECREATED {
@@ -1372,11 +1385,11 @@ func (x *lcRunner) gen0() lcOp {
 	}
 	if !exists {
 		return lcOp{Op: "init", K: k, A: 100000 + int64(rng.Intn(5))*40000000, B: int64(rng.Intn(3)) * 500,
-			V: ver(), Fail: rng.Intn(6) == 0}
+			V: ver(), Fail: rng.Intn(6) == 0, Grid: rng.Intn(3) != 0}
 	}
 	modOp := func() lcOp {
 		kind := pick("deposit", "withdraw", "renew")
-		o := lcOp{Op: "mod", K: k, Kind: kind, V: int(a.Version)}
+		o := lcOp{Op: "mod", K: k, Kind: kind, V: int(a.Version), Grid: rng.Intn(2) == 0}
 		switch rng.Intn(6) {
 		case 0:
 			o.V = ver()
@@ -1408,7 +1421,7 @@ func (x *lcRunner) gen0() lcOp {
 		return o
 	}
 	stageOp := func() lcOp {
-		o := lcOp{Op: "stage", BV: []int{0, 1, 10, 10}[rng.Intn(4)]}
+		o := lcOp{Op: "stage", BV: []int{0, 1, 10, 10, 10}[rng.Intn(5)], Grid: rng.Intn(2) == 0}
 		for j := 1; j <= lcNumAccts; j++ {
 			b, ok := main[j]
 			if !ok || (j != k && rng.Intn(2) == 0) {
@@ -1422,13 +1435,20 @@ func (x *lcRunner) gen0() lcOp {
 			if sa.EndBal < 1000 {
 				sa.EndBal = 1000
 			}
-			switch rng.Intn(8) {
-			case 0:
+			// the optional features of a re-created output are drawn independently:
+			// expiry extension, version upgrade, both, neither
+			if rng.Intn(8) == 0 {
 				sa.Ending, sa.EndBal = 1+rng.Intn(3), 0
-			case 1:
-				sa.NewExp = 144 + int64(rng.Intn(3000))
-			case 2:
-				sa.NewVer = ver()
+			} else {
+				if rng.Intn(4) == 0 {
+					sa.NewExp = 144 + int64(rng.Intn(3000))
+				}
+				if rng.Intn(4) == 0 {
+					sa.NewVer = ver()
+					if rng.Intn(2) == 0 && sa.NewVer <= int(b.Version) && b.Version < 2 {
+						sa.NewVer = int(b.Version) + 1
+					}
+				}
 			}
 			o.Accts = append(o.Accts, sa)
 		}
@@ -1470,7 +1490,7 @@ func (x *lcRunner) gen0() lcOp {
 		}
 	}
 	// two transactions confirmed in the same block: concurrent spend handlers
-	if rng.Intn(100) < 12 {
+	if rng.Intn(100) < 20 {
 		type cand struct {
 			k    int
 			kind string
